@@ -13,6 +13,10 @@ def run(tier, replay=None):
                      "text payload identity is judged on the TTML with timestamps removed"]
     c.trusted = ["mp4ff decoder in the recorder", "asset generator ground truth", "TLC"]
     c.model("LiveTimeline_MC", f"LiveTimeline_{tier}.cfg", workers=4, required_actions=("Tick",))
+    if tier == "thorough":
+        # unbounded: contiguity across the loop wrap, monotone availability and status, and the pair arithmetic every
+        # timeline trace specification relies on (TLAPS, for any N, durations > 0, any integer loop count)
+        c.proofs(["time_tlaps", "livetimeline_tlaps"])
     drive = vlib.build_harness(cmd="c01")
     trace = c.work / "c01.ndjson"
     args = ["-out", trace, "-work", c.work, "-seed", c.seed] + (["-thorough"] if tier == "thorough" else [])
